@@ -295,6 +295,32 @@ def _segment_pairs(ctx: Ctx, cw, csums, S: str, E: str) -> bool:
     want_s = f"BeatValues((BeatValue(beat=_c0, value=Decimal(0)) for _c0, _c1 in {L}))"
     want_e = f"BeatValues((BeatValue(beat=_c1, value=Decimal(0)) for _c0, _c1 in {L}))"
     ok = forms.get(S) == {want_s} and forms.get(E) == {want_e}
+    if not ok and forms.get(S) == {"BeatValues()"} and forms.get(E) == {"BeatValues()"}:
+        # the same two lists filled by one loop over the pairs: S.append(BeatValue(beat=<first>, value=0)); E.append(BeatValue(beat=<second>, value=0)),
+        # unconditionally, once per pair
+        good_paths = 0
+        bad_paths = 0
+        for s_ in csums:
+            loops2 = [(i, e) for i, e in enumerate(s_.effects) if e.kind == "for" and e.value is not None and ast.unparse(e.value) == L and isinstance(e.target, ast.Tuple) and len(e.target.elts) == 2]
+            if not loops2:
+                continue
+            i0, le = loops2[0]
+            a_, b_ = [x.id for x in le.target.elts if isinstance(x, ast.Name)] if all(isinstance(x, ast.Name) for x in le.target.elts) else (None, None)
+            inside = [e for e in s_.effects[i0 + 1:] if le.line in e.loops]
+            apps = {}
+            other = []
+            for e in inside:
+                v = e.value
+                if e.kind == "expr" and isinstance(v, ast.Call) and isinstance(v.func, ast.Attribute) and v.func.attr == "append" and isinstance(v.func.value, ast.Name) and v.func.value.id in (S, E) and len(v.args) == 1:
+                    apps.setdefault(v.func.value.id, []).append(ast.unparse(_cl(s_, v.args[0], s_.effects.index(e))))
+                elif e.kind != "bind":
+                    other.append(e.text)
+            conds = [k for k in s_.atoms_in(le.line)]
+            if apps.get(S) == [f"BeatValue(beat={a_}, value=Decimal(0))"] and apps.get(E) == [f"BeatValue(beat={b_}, value=Decimal(0))"] and not other and not conds:
+                good_paths += 1
+            else:
+                bad_paths += 1
+        ok = good_paths > 0 and bad_paths == 0
     ctx.expect("R-TABLE", cw, "WARP events are the segments' starts and WARP_END events their ends (zero-valued, in segment order)", ok, "", f"starts: {sorted(forms.get(S, []))}; ends: {sorted(forms.get(E, []))}", node=cw.node)
     return True
 
